@@ -31,6 +31,10 @@ EXTRA.update({
  "C01-r5m1": ["C01", "C05"], "C01-r5m2": ["C01"], "C02-r5m1": ["C02", "C13"], "C02-r5m2": ["C02", "C14"], "C05-r5m1": ["C05", "C13"], "C05-r5m2": ["C05", "C11"],
  "C12-r5m1": ["C12", "C16"], "C12-r5m2": ["C12", "C14"], "C16-r5m1": ["C16"], "C16-r5m2": ["C16", "C13"], "C17-r5m1": ["C17"], "C17-r5m2": ["C17"],
 })
+EXTRA.update({
+ "C17-r6gam1": ["C17", "C05"], "C04-r6gam2": ["C04", "C03"], "C07-r6gbm1": ["C07"], "C08-r6gbm2": ["C08"], "C02-r6gcm1": ["C02", "C13"], "C14-r6gcm2": ["C14"],
+ "C11-r6gdm1": ["C11", "C14"], "C05-r6gdm2": ["C05", "C01"], "C13-r6gem1": ["C13", "C05"], "C12-r6gem2": ["C12"], "C09-r6gfm1": ["C09", "C03", "C04"], "C07-r6gfm2": ["C07"],
+})
 PREFIX_PROP = {"d8b687c": ["C06"], "da7613f": ["C16"], "64a92d9": ["C02"], "2c87331": ["C13", "C02", "C12"], "06fc22c": ["C05", "C11"],
                "85dc330": ["C05", "C11"], "4c427cc": ["C13"], "a8065bf": ["C13"], "a4e97cf": ["C11"], "2aa0389": ["C04"],
                "9db7846": ["C17"], "23f20cf": ["C17"], "b18464c": ["C07"], "d06cb78": ["C10"], "796c1d9": ["C01", "C11"], "e184993": ["C10"]}
@@ -43,16 +47,19 @@ def sh(cmd, cwd=None):
     return subprocess.run(cmd, shell=True, cwd=cwd, stdout=subprocess.PIPE, stderr=subprocess.STDOUT, text=True).stdout
 
 
+REPO = os.environ.get("MATRIX_REPO", "/repo")     # a scratch worktree of /repo's HEAD can be used while a vp run occupies /repo
+
+
 def run(patch, prop):
-    if sh("git diff --quiet || echo dirty", cwd="/repo").strip():
+    if sh("git diff --quiet || echo dirty", cwd=REPO).strip():
         raise SystemExit("repo dirty")
-    if sh("git apply --check %s 2>&1 || echo FAIL" % patch, cwd="/repo").strip():
+    if sh("git apply --check %s 2>&1 || echo FAIL" % patch, cwd=REPO).strip():
         return "patch-does-not-apply", []
-    sh("git apply %s" % patch, cwd="/repo")
+    sh("git apply %s" % patch, cwd=REPO)
     try:
-        out = sh("./check %s quick" % prop, cwd=VERIF)
+        out = sh("VERIF_REPO=%s ./check %s quick" % (REPO, prop), cwd=VERIF)
     finally:
-        sh("git checkout -q -- .", cwd="/repo")
+        sh("git checkout -q -- .", cwd=REPO)
     buckets = re.findall(r"VIOLATION property=\S+ replay=\S+\s+\[([^\]]+)\]", out)
     # keep the (shrunk) reproducer of the first bucket as a regression case for that check
     m = re.search(r"VIOLATION property=\S+ replay=(\S+)", out)
